@@ -163,6 +163,7 @@ class BookRun:
         if op == "reload":
             p = os.path.join(scratch, "pysnap_%d.json" % os.getpid())
             pretty = l.get("mode") in ("sp", "fp")
+            self.books[0].save_json_snapshot(p, not pretty)     # saving over an existing snapshot replaces it
             self.books[0].save_json_snapshot(p, pretty)
             nb = core.order_book_from_json(p)
             os.remove(p)
